@@ -54,6 +54,49 @@ Definition modelled_mutations : list string := [
 Definition modelled_input_tys_mentions : list string :=
   ["internals/compiler/func_compiler.py:compile_local_func_def"].
 
+(* writes of session-global state from outside its owner, each with its model counterpart:
+   decorators = ORegister (store, ns); engine.get_checked = generated struct methods (d_ngen);
+   check_nested_func_def = a nested helper registered as a global definition (d_nested: a DefId,
+   an ENGINE.parsed entry that reset() clears; after fix-3 NO write into the frame namespace);
+   mock_builtins = scoped patch of the traced function's globals, undone in a finally block *)
+Definition modelled_write_sites : list string := [
+  "internals/checker/func_checker.py:check_nested_func_def:DEF_STORE.register_def()";
+  "internals/checker/func_checker.py:check_nested_func_def:ENGINE.parsed[def_id]=";
+  "internals/decorator.py:custom_function:DEF_STORE.register_def()";
+  "internals/decorator.py:custom_type:DEF_STORE.register_def()";
+  "internals/decorator.py:custom_type:DEF_STORE.register_impl()";
+  "internals/decorator.py:dec:DEF_STORE.register_def()";
+  "internals/decorator.py:dec:DEF_STORE.register_impl()";
+  "internals/decorator.py:dec:DEF_STORE.register_wasm_function()";
+  "internals/decorator.py:ext_module_decorator:DEF_STORE.register_def()";
+  "internals/decorator.py:ext_module_decorator:DEF_STORE.register_impl()";
+  "internals/decorator.py:ext_module_decorator:DEF_STORE.register_wasm_function()";
+  "internals/decorator.py:extend_type:DEF_STORE.register_impl()";
+  "internals/decorator.py:fun:DEF_STORE.register_def()";
+  "internals/decorator.py:fun:DEF_STORE.register_impl()";
+  "internals/decorator.py:fun:DEF_STORE.register_wasm_function()";
+  "internals/decorator.py:wasm_helper:DEF_STORE.register_def()";
+  "internals/engine.py:get_checked:DEF_STORE.register_def()";
+  "internals/engine.py:get_checked:DEF_STORE.register_impl()";
+  "internals/tracing/builtins_mock.py:mock_builtins:f.__globals__.update()";
+  "internals/tracing/builtins_mock.py:mock_builtins:f.__globals__[x]=";
+  "guppylang/decorator.py:__call__:DEF_STORE.register_def()";
+  "guppylang/decorator.py:_extern:DEF_STORE.register_def()";
+  "guppylang/decorator.py:comptime:DEF_STORE.register_def()";
+  "guppylang/decorator.py:const_var:DEF_STORE.register_def()";
+  "guppylang/decorator.py:constant:DEF_STORE.register_def()";
+  "guppylang/decorator.py:dec:DEF_STORE.register_def()";
+  "guppylang/decorator.py:declare:DEF_STORE.register_def()";
+  "guppylang/decorator.py:func:DEF_STORE.register_def()";
+  "guppylang/decorator.py:load_pytket:DEF_STORE.register_def()";
+  "guppylang/decorator.py:nat_var:DEF_STORE.register_def()";
+  "guppylang/decorator.py:overload:DEF_STORE.register_def()";
+  "guppylang/decorator.py:pytket:DEF_STORE.register_def()";
+  "guppylang/decorator.py:struct:DEF_STORE.register_def()";
+  "guppylang/decorator.py:struct:DEF_STORE.register_impl()";
+  "guppylang/decorator.py:type_var:DEF_STORE.register_def()"
+].
+
 Definition mem (x : string) (l : list string) : bool := existsb (String.eqb x) l.
 Definition subset (a b : list string) : bool := forallb (fun x => mem x b) a.
 Definition same_set (a b : list string) : bool := subset a b && subset b a.
